@@ -502,11 +502,15 @@ impl Mp4Track {
     fn sample_time(&self, sample_id: u32) -> Result<(u64, u32)> {
         if !self.trafs.is_empty() {
             let mut base_start_time = 0;
+            // samples that precede this one, counted from the point base_start_time refers to
+            let mut samples_before = sample_id - 1;
             let mut default_sample_duration = self.default_sample_duration;
             if let Some((traf_idx, sample_idx)) = self.find_traf_idx_and_sample_idx(sample_id) {
                 let traf = &self.trafs[traf_idx];
                 if let Some(tfdt) = &traf.tfdt {
+                    // the decode time of the first sample of this fragment
                     base_start_time = tfdt.base_media_decode_time;
+                    samples_before = sample_idx as u32;
                 }
                 if let Some(duration) = traf.tfhd.default_sample_duration {
                     default_sample_duration = duration;
@@ -524,7 +528,7 @@ impl Mp4Track {
                     }
                 }
             }
-            let start_offset = ((sample_id - 1) * default_sample_duration) as u64;
+            let start_offset = (samples_before * default_sample_duration) as u64;
             Ok((base_start_time + start_offset, default_sample_duration))
         } else {
             let stts = &self.trak.mdia.minf.stbl.stts;
